@@ -192,6 +192,18 @@ def gen(rng, tier, props=("C04",)):
             es = [1] * R; es[rng.randrange(R)] = rng.choice([Mb, Mb // 2, Mb - 1])
         elif endspec is not None:
             es = rng.sample([2, 3, 4, 5], 2)
+            # half of them at the representability boundary: the source span fits the index type, but the mapping evaluated AT the
+            # (out-of-range) lower bounds would not - an implementation that evaluates it before testing for the empty slice overflows
+            endbig = False
+            if endspec[1] in ("P", "T", "Sd") and endspec[2] in ("I", "P", "Sd") and rng.random() < 0.6:
+                if rng.random() < 0.7:
+                    t = 4; T = CTYPES[t]; M = imax(t)      # int: the only index type here whose arithmetic is neither promoted nor unsigned
+            if endspec[1] in ("P", "T", "Sd") and endspec[2] in ("I", "P", "Sd") and BITS[t] <= 32 and rng.random() < 0.75:
+                a_ = rng.choice([2, 3, 4, 5])
+                if M // a_ > a_:
+                    es = [0, 0]; es[endspec[3]] = a_; es[1 - endspec[3]] = M // a_
+                    endbig = True
+                    hist["end-empty slice at the representability boundary"] += 1
         elif forced is not None:
             es = rng.sample([4, 5, 6, 7], R) if M >= 7 ** R else [4, 5, 6][:R]     # distinct extents: a shifted stride factor is visible
         else:
@@ -232,9 +244,10 @@ def gen(rng, tier, props=("C04",)):
                     return Sl("I", T, [E - 1], u=2)
                 if ok_ == "IC":
                     return Sl("IC", ic(E - 1), [E - 1])
+                lo = E - 1 if endbig else 1            # at the boundary: the largest valid lower bound
                 if ok_ == "P":
-                    return Sl("P", "std::pair<%s, %s>" % (T, T), [1, E])
-                return Sl("S", "%s, %s, %s" % (T, T, T), [1, E - 1, 1], mask=0)
+                    return Sl("P", "std::pair<%s, %s>" % (T, T), [lo, E])
+                return Sl("S", "%s, %s, %s" % (T, T, T), [lo, E - lo, 1], mask=0)
             pair = [None, None]
             pair[pos] = end_slice(Ee); pair[1 - pos] = other_slice(Eo)
             levels = [pair]
